@@ -39,19 +39,40 @@ Theorem C14_eject_formats_pass_lossy :
 Proof. exact eject_formats_pass_lossy. Qed.
 
 (* JSON / YAML: the dict handed to the (trusted) serialisers contains exactly the source's items -- PARTIAL:
-   wf_doc = no section marker, no block target, no duplicate sibling key (incl. inline-map keys, META clash) *)
+   wf_doc = no section marker, no block target, no duplicate sibling key (incl. inline-map keys, META clash).
+   Holographic values are INSIDE the domain (there is no holographic clause): since repair 88905cd they are exported as
+   their pattern text, which is what items_doc says a holographic value contains (a string leaf); nested META blocks too. *)
 Definition C14_dict_complete_full : Prop := dict_complete_full.
 Theorem C14_dict_complete_partial : forall d, wf_doc d = true -> items_dict (ast_to_dict d) = items_doc d.
 Proof. exact dict_complete_partial. Qed.
 Theorem C14_wf_doc_nonvacuous : wf_doc wf_example = true.
 Proof. exact wf_doc_nonvacuous. Qed.
+(* UNCONDITIONAL (every document, also outside wf_doc): no AST object survives _ast_to_dict -- the tree is made of
+   dict / list / str / number / bool / None only, so json.dumps cannot refuse it and yaml.dump emits no !!python/object.
+   False before repair 88905cd (HolographicValue objects and unconverted nested META dicts reached the serialisers). *)
+Theorem C14_dict_native : forall d, native_dict (ast_to_dict d) = true.
+Proof. exact dict_native. Qed.
+(* the former witnesses of C14-holographic-python-dump / C20-eject-json-holographic / C20-eject-json-nested-meta *)
+Theorem C14_regression_holo_exported_as_text :
+  ast_to_dict wit_holo = [([72], JStr raw_holo)] /\
+  items_dict (ast_to_dict wit_holo) = items_doc wit_holo /\
+  md_pairs (md_struct wit_holo) = [([72], raw_holo)].
+Proof. exact regression_holo_exported_as_text. Qed.
+Theorem C14_regression_nested_meta_converted :
+  ast_to_dict wit_nested_meta =
+    [(s_META, JMap [([78], JMap [([76], JList [JStr [97]; JStr [98]]); ([72], JStr raw_holo)])]);
+     (s_K, JList [JStr raw_holo; JMap [([107], JStr raw_holo)]])] /\
+  wf_doc wit_nested_meta = true /\
+  items_dict (ast_to_dict wit_nested_meta) = items_doc wit_nested_meta /\
+  native_dict (ast_to_dict wit_nested_meta) = true.
+Proof. exact regression_nested_meta_converted. Qed.
 Theorem C14_dict_complete_full_refuted : ~ dict_complete_full.
 Proof. exact dict_complete_full_refuted. Qed.
 Theorem C14_refuted_section_dropped :
   project m_canonical wit_section = (wit_section, false, []) /\
   In ([PSec [49] s_S; PKey s_K], CLeaf (LfStr s_v)) (items_doc wit_section) /\
   items_dict (ast_to_dict wit_section) = [] /\
-  (forall hs, md_pairs (md_struct hs wit_section) = []).
+  md_pairs (md_struct wit_section) = [].
 Proof. exact dict_complete_refuted_section_dropped. Qed.
 Theorem C14_refuted_duplicate_key :
   project m_canonical wit_dup = (wit_dup, false, []) /\
@@ -64,10 +85,10 @@ Theorem C14_refuted_block_target_dropped :
   ~ In ([PKey [66]; PTarget], CLeaf (LfStr [84])) (items_dict (ast_to_dict wit_target)).
 Proof. exact dict_complete_refuted_block_target_dropped. Qed.
 
-(* Markdown (structured lines of the eject.py writer; hs = str() of a holographic value, an oracle):
-   shows exactly every META entry and every assignment reachable through blocks, in order, duplicates included;
-   nothing under a section marker (full completeness refuted) *)
-Theorem C14_markdown_pairs : forall hs d, md_pairs (md_struct hs d) = doc_pairs hs d.
+(* Markdown (structured lines of the eject.py writer; NO oracle any more: a holographic value is shown as its pattern
+   text, a nested META block as `k: v, k: v`): shows exactly every META entry and every assignment reachable through
+   blocks, in order, duplicates included; nothing under a section marker (full completeness refuted) *)
+Theorem C14_markdown_pairs : forall d, md_pairs (md_struct d) = doc_pairs d.
 Proof. exact markdown_pairs. Qed.
 Definition C14_markdown_complete_full : Prop := markdown_complete_full.
 Theorem C14_markdown_complete_full_refuted : ~ markdown_complete_full.
@@ -75,19 +96,30 @@ Proof. exact markdown_complete_full_refuted. Qed.
 
 (* formats agree -- PARTIAL: JSON and YAML serialise ONE dict (ast_to_dict), so they agree by construction modulo the
    trusted serialisers; on wf documents dict and markdown are both complete w.r.t. the same source *)
-Theorem C14_formats_agree_partial : forall hs d, wf_doc d = true ->
-  items_dict (ast_to_dict d) = items_doc d /\ md_pairs (md_struct hs d) = doc_pairs hs d.
-Proof. exact (fun hs d H => conj (dict_complete_partial d H) (markdown_pairs hs d)). Qed.
+Theorem C14_formats_agree_partial : forall d, wf_doc d = true ->
+  items_dict (ast_to_dict d) = items_doc d /\ md_pairs (md_struct d) = doc_pairs d.
+Proof. exact (fun d H => conj (dict_complete_partial d H) (markdown_pairs d)). Qed.
 
 (* the CLI copy of the dict converter passes literal-zone objects through unconverted *)
 Theorem C14_cli_zone_not_exported : forall c t f,
   cli_ast_to_dict (mk_doc [68] [] [NAssign s_K (VZone c t f)]) = [(s_K, JZoneObj c t f)].
 Proof. exact cli_zone_not_exported. Qed.
+(* ... nor holographic values (cli/main.py is NOT repaired): the object reaches the serialiser; the CLI dict is neither
+   native nor complete *)
+Theorem C14_cli_holo_not_exported : forall r,
+  cli_ast_to_dict (mk_doc [68] [] [NAssign s_K (VHolo r)]) = [(s_K, JHolo r)] /\
+  native_dict (cli_ast_to_dict (mk_doc [68] [] [NAssign s_K (VHolo r)])) = false /\
+  ~ In ([PKey s_K], CLeaf (LfStr r)) (items_dict (cli_ast_to_dict (mk_doc [68] [] [NAssign s_K (VHolo r)]))).
+Proof. exact cli_holo_not_exported. Qed.
 
 (* ---- ties to the current source text ---- *)
 Theorem C14_consumed_tables :
-  convert_value_classes = [1; 2; 3] /\ convert_node_classes = [1; 2] /\ cli_convert_value_classes = [2; 3].
-Proof. exact (conj convert_value_classes_pin (conj convert_node_classes_pin cli_convert_value_classes_pin)). Qed.
+  convert_value_classes = [1; 2; 3; 4; 5] /\ format_markdown_value_classes = [1; 2; 3; 4; 5] /\
+  convert_node_classes = [1; 2] /\ cli_convert_value_classes = [2; 3].
+Proof.
+  exact (conj convert_value_classes_pin (conj format_markdown_value_classes_pin
+        (conj convert_node_classes_pin cli_convert_value_classes_pin))).
+Qed.
 Theorem C14_pin_sources :
   projector_src_filter_fields = pinned_projector_src_filter_fields /\
   projector_src_ast_to_dict = pinned_projector_src_ast_to_dict /\
